@@ -33,6 +33,8 @@ func init() {
 			"length of the NEXT_HOP payload (declared 4, the value is whatever address the dialer bound: reviewed exception, see DESIGN.md section 6).",
 		Run: runC16,
 		Mutants: []Mutant{
+			{Name: "notification-class-table-indexed-by-wire-octet", File: "internal/bgp/native/messages.go",
+				Old: "\t\tv = \"unknown code\"\n", New: "\t\tv = [...]string{\"\", \"header\", \"open\", \"update\", \"hold\", \"fsm\", \"cease\"}[code>>8]\n", Expect: "WIRE-INDEX"},
 			{Name: "hold-time-clamped-on-the-wire", File: "internal/bgp/native/messages.go",
 				Old: "\tmsg := struct {\n\t\t// Header\n", New: "\tif holdTimeSeconds < 3 {\n\t\tholdTimeSeconds = 3\n\t}\n\tmsg := struct {\n\t\t// Header\n", Expect: "OPEN-FIELDS"},
 			{Name: "unknown-capability-skipped-by-raw-reads", File: "internal/bgp/native/messages.go",
@@ -90,6 +92,87 @@ func runC16(p *chk.Prog, r *chk.Report) {
 	c16Tolerant(p, r)
 	c16ReadAhead(p, r)
 	c16CapsSticky(p, r)
+	c16WireIndex(p, r)
+	// the NEXT_HOP put on the wire is the address the session actually speaks from (ROUND-ATOMIC next-hop part, shared
+	// with C17): the local address of the established connection, not a configured value
+	c17RoundAtomic(p, r)
+}
+
+// c16WireIndex: what a peer sends is never used to index a fixed table without a bounds test. The decoding functions of
+// the package (read*, consume*) index or slice arrays, slices and strings only with constants, with the key of a range
+// over that same operand, or behind a comparison of that very index with the operand's length: a code or length octet
+// taken from the wire that is larger than the table panics the speaker - every session of the node goes down at the
+// peer's will.
+func c16WireIndex(p *chk.Prog, r *chk.Report) {
+	x := r.Rule("WIRE-INDEX", "B path", "in package native the functions that decode what the peer sent (read*, consume*) index or slice an array, slice or string only with constant indices, with the key of a range loop over the same operand, or behind a comparison of the index with len of the operand (maps are exempt: a missing key is not a fault)", 0)
+	nFn := 0
+	for _, f := range p.FuncsIn(natPkg) {
+		if f.Body == nil || f.Decl == nil {
+			continue
+		}
+		name := f.Decl.Name.Name
+		if !strings.HasPrefix(name, "read") && !strings.HasPrefix(name, "consume") {
+			continue
+		}
+		nFn++
+		r.Saw(f)
+		g := f.Graph()
+		indexable := func(e ast.Expr) bool {
+			t := f.Info().TypeOf(e)
+			if t == nil {
+				return false
+			}
+			switch u := t.Underlying().(type) {
+			case *types.Array, *types.Slice:
+				return true
+			case *types.Pointer:
+				_, isArr := u.Elem().Underlying().(*types.Array)
+				return isArr
+			case *types.Basic:
+				return u.Info()&types.IsString != 0
+			}
+			return false
+		}
+		check := func(at ast.Node, operand, idx ast.Expr) {
+			if idx == nil || f.ConstVal(idx) != nil {
+				return
+			}
+			// the key of a range over the operand
+			if id, isId := ast.Unparen(idx).(*ast.Ident); isId {
+				for _, rs := range f.RangeLoops(func(e ast.Expr) bool { return f.SameExpr(e, operand) }) {
+					if k, isK := rs.Key.(*ast.Ident); isK && f.ObjOf(k) == f.ObjOf(id) && chk.InBody(rs, at) {
+						return
+					}
+				}
+			}
+			site := g.FactSite(idx)
+			isIdx := func(e ast.Expr) bool { return f.SameValue(e, idx) || f.SameExpr(e, idx) }
+			isLen := func(e ast.Expr) bool {
+				if c := f.ConstVal(e); c != nil {
+					return true // compared with a constant bound (the table's length is a constant too)
+				}
+				b := f.MatchNew("len(X)", e)
+				return b != nil && f.SameExpr(b["X"], operand)
+			}
+			bounded := site.B != nil && (g.Dominated(site, chk.GCompare(true, token.LSS, isIdx, isLen)) || g.Dominated(site, chk.GCompare(true, token.LEQ, isIdx, isLen)))
+			x.Check(name+":index-bounded@"+f.Src(operand), at.Pos(), bounded, "", "a value decoded from the peer's message indexes "+f.Src(operand)+" without a bounds test: a larger value than the table holds panics the process (every BGP session of the node drops)")
+		}
+		chk.InspectNoLit(f.Body, func(n ast.Node) bool {
+			switch v := n.(type) {
+			case *ast.IndexExpr:
+				if indexable(v.X) {
+					check(v, v.X, v.Index)
+				}
+			case *ast.SliceExpr:
+				if indexable(v.X) {
+					check(v, v.X, v.Low)
+					check(v, v.X, v.High)
+				}
+			}
+			return true
+		})
+	}
+	x.Check("decoders-found", token.NoPos, nFn >= 4, "", "fewer read*/consume* functions than on the confirmed tree")
 }
 
 // c16CapsSticky: what readOpen reports about the peer's capabilities is the union over the capabilities the OPEN
